@@ -138,7 +138,9 @@ def gen_server_ctors(repo):
     lit = sink['body'][m.end():matching(sink['body'], m.end() - 1, '{', '}') - 1]
     fields = [' '.join(x.split()) for x in rp.split_top(lit)]
     stores = ('filter' in fields) or ('filter: filter' in fields)
-    check_rebinding(sink, 'tcp/server.rs')
+    # anything that rebinds / assigns `filter` between the parameter and the struct literal transforms what the accept loop will consult
+    sink_rebinds = [' '.join(x.group(0).split()) for x in re.finditer(r'\blet\s+(?:mut\s+)?filter\b[^;]*;|(?<![\w.])filter\s*=[^=][^;]*;', sink['body'][:m.start()])]
+    sink_field_expr = next((f for f in fields if f == 'filter' or f.startswith('filter:')), '')
     if not re.search(r'use\s+crate::tcp::server::\{[^}]*\bServerTask\s+as\s+TcpServerTask\b', mod_src):
         raise ParseError('server/mod.rs: `use crate::tcp::server::{ServerTask as TcpServerTask, ..}` not found')
 
@@ -380,6 +382,9 @@ def gen_server_ctors(repo):
     out += f'Definition ctor_sink : string := {coq_str(SINK)}.\n'
     out += f'(* ServerTask::new stores its `filter` parameter in the field `filter` that the accept arm consults *)\n'
     out += f'Definition sink_stores_filter : bool := {"true" if stores else "false"}.\n'
+    out += '(* ... and between the parameter list and that struct literal nothing rebinds or assigns `filter`: every such statement is listed here *)\n'
+    out += 'Definition sink_filter_rebindings : list string := [' + '; '.join(coq_str(x) for x in sink_rebinds) + '].\n'
+    out += f'Definition sink_filter_field : string := {coq_str(sink_field_expr)}.\n'
     out += 'Definition ctor_calls : list ctor_call := [\n'
     out += ';\n'.join(f'  {{| cc_caller := {coq_str(a)}; cc_callee := {coq_str(b)}; cc_arg := {c} |}}' for a, b, c in calls)
     out += '\n].\n'
